@@ -396,6 +396,25 @@ class Ctx:
             if s is not None:
                 return s
             return ("try", self.term(inner, subst))
+        if k == "Match":
+            # `match X.f() { Ok(d) => d, Err(_) => <diverges> }`  ==  the Ok payload of the call
+            arms = n.get("arms", [])
+            if len(arms) == 2:
+                from .guards import diverges
+                for a, b in ((arms[0], arms[1]), (arms[1], arms[0])):
+                    pa = a["pat"]
+                    inner = None
+                    if pa.get("k") == "TupleStruct" and str(pa.get("path", "")).endswith("Ok") and len(pa.get("ps", [])) == 1:
+                        inner = pa["ps"][0]
+                    if pa.get("k") == "Struct" and str(pa.get("path", "")).endswith("Ok") and len(pa.get("fields", [])) == 1:
+                        inner = pa["fields"][0]["pat"]
+                    if inner is not None and inner.get("k") == "Bind" and diverges(b["body"]):
+                        body = strip(a["body"])
+                        if body.get("k") == "Local" and body["v"] == inner["v"]:
+                            s_ = self._ok_payload(n["scrut"], subst)
+                            if s_ is not None:
+                                return s_
+            return ("expr", k, n.get("id"))
         if k == "Closure":
             return ("closure", n["id"])
         if k == "Macro":
